@@ -1238,6 +1238,16 @@ def build_units(repo):
             if mc is None:
                 continue
             for m in methods_of(mc):
+                if m.name == "_read_expected_packet_from_device":
+                    tag = "%s_%s" % (cls, m.name.strip("_"))
+                    try:
+                        cond, it, effs, info = loop_iteration(m, {"_read_packet_from_device"})
+                        for node, suffix in [(cond, "cond"), (it, "iter")] + [(e, e.name.split("__")[-1]) for e in effs]:
+                            u.add_function("", node, lean="%s_%s" % (tag, suffix), params=[a.arg for a in node.args.args])
+                    except Unsupported as exc:
+                        node = ast.FunctionDef(name=tag + "_iter", args=ast.arguments(posonlyargs=[], args=[], kwonlyargs=[], kw_defaults=[], defaults=[]),
+                                               body=[ast.Global(names=["loop_not_extractable: %s" % str(exc)[:80].replace(" ", "_")])], decorator_list=[])
+                        u.add_function("", node, lean=tag + "_iter", params=[])
                 if m.name in ("_read_packet_from_device", "_send"):
                     tag = "%s_%s" % (cls, m.name.strip("_"))
                     try:
